@@ -141,7 +141,7 @@ def spd_rules(kind, member):
 def add_rules(kind, member):
     return [
         Lambda(None), THIS,
-        Guard(r"std::unique_lock<mutex_type>\s+(\w+)\s*[({]\s*mtx\s*[)}]\s*;", r"struct ulock \1 = ulock_make(&self->mtx);", r"ulock_dtor(&\1);", None),
+        Guard(r"std::(?:unique_lock|lock_guard|scoped_lock)<mutex_type>\s+(\w+)\s*[({]\s*mtx\s*[)}]\s*;", r"struct ulock \1 = ulock_make(&self->mtx);", r"ulock_dtor(&\1);", None),
         Sub(r"\b(\w+)\.unlock\(\);", r"ulock_unlock(&\1);", None),
         VISIT,
     ] + CONT_RULES[kind] + [
